@@ -131,4 +131,53 @@ CONTRACTS = [
                                        "0, 4), 0, ipow(4, observed_length), lambda v: result[v])"},
         raises={},
     ),
+    # ------------------------------------------------------------------ C08 (helper of repair_dna): every fragment path_matching returns is a
+    # single edit of the chunk at the given position whose tail is a walk from the previous vertex
+]
+
+
+def path_matching_variant(indel):
+    inv = ("ite(candidate[0][0] == 'S', "
+           "candidate[0][1] == occur_location and not (candidate[0][2] == dna_sequence[occur_location]) and is_dna(candidate[0][2]) and len(candidate[0][2]) == 1 and "
+           "is_subst(candidate[1], dna_sequence, occur_location, candidate[0][2]) and accessor[previous_index][code(candidate[0][2])] >= 0 and "
+           "walkv(accessor, dna_sequence[occur_location + 1:], accessor[previous_index][code(candidate[0][2])], len(dna_sequence) - occur_location - 1) >= 0, "
+           "ite(candidate[0][0] == 'I', "
+           "candidate[0][1] == occur_location and is_dna(candidate[0][2]) and len(candidate[0][2]) == 1 and "
+           "is_ins(candidate[1], dna_sequence, occur_location, candidate[0][2]) and accessor[previous_index][code(candidate[0][2])] >= 0 and "
+           "walkv(accessor, dna_sequence[occur_location:], accessor[previous_index][code(candidate[0][2])], len(dna_sequence) - occur_location) >= 0, "
+           "candidate[0][0] == 'D' and candidate[0][1] == occur_location and candidate[0][2] == dna_sequence[occur_location] and "
+           "is_del(candidate[1], dna_sequence, occur_location) and "
+           "walkv(accessor, dna_sequence[occur_location + 1:], previous_index, len(dna_sequence) - occur_location - 1) >= 0))")
+    walk_inv = lambda suffix: {
+        "on-the-walk": "vertex_index == walkv(accessor, " + suffix + ", v1, _i) and 0 <= vertex_index and vertex_index < ipow(4, k) and reliable"}
+    ghost = {"entry": "ipow_mono(4, 0, k)",
+             "before_loop2": "v1 = vertex_index", "before_loop4": "v1 = vertex_index", "before_loop5": "v1 = vertex_index",
+             "loop2_begin": "mark(code(nucleotide))\n" + "".join("if accessor[vertex_index][%d] >= 0:\n    pass\n" % j for j in range(4)),
+             "loop4_begin": "mark(code(nucleotide))\n" + "".join("if accessor[vertex_index][%d] >= 0:\n    pass\n" % j for j in range(4)),
+             "loop5_begin": "mark(code(nucleotide))\n" + "".join("if accessor[vertex_index][%d] >= 0:\n    pass\n" % j for j in range(4))}
+    return dict(
+        name="dsw.graphized.path_matching#" + ("indel" if indel else "subst"), function="dsw.graphized.path_matching", variant_of="dsw.graphized.path_matching",
+        n_loops=5, ghost_params={"k": "nat"},
+        params={"dna_sequence": "dna", "accessor": "mat(ipow(4, k), 4)", "previous_index": "nat", "occur_location": "nat",
+                "has_indel": "true" if indel else "false", "nucleotides": "none"},
+        requires={"graph": "k >= 1 and is_accessor(accessor, k)", "vertex": "previous_index < ipow(4, k)", "position": "occur_location < len(dna_sequence)"},
+        returns="tuple",
+        # the two outer loops run over at most four candidate nucleotides: their bodies are verified for an ARBITRARY element of the candidate list
+        havoc_loops=(1, 3),
+        types={"visited_count": "int"},
+        collections={"repair_info": inv},
+        ensures={"every-fragment-is-a-walkable-single-edit": "candidates_ok(result[0], 'repair_info')", "count-is-an-integer": "result[1] == result[1]"},
+        raises={},
+        concrete_inputs="[dict(k=k_, dna_sequence=w_, accessor=a_, previous_index=p_, occur_location=l_, has_indel=" + ("True" if indel else "False") + ", nucleotides=None) "
+                        "for k_ in (1, 2) for (a_, s_, w_) in walk_cases(k_)[:40] for p_ in range(min(4 ** k_, 6)) for l_ in range(min(len(w_), 5))]",
+        ghost=ghost,
+        loops={2: dict(binds="enumerate(dna_sequence[occur_location + 1:])", invariant=walk_inv("dna_sequence[occur_location + 1:]")),
+               4: dict(binds="dna_sequence[occur_location:]", invariant=walk_inv("dna_sequence[occur_location:]")),
+               5: dict(binds="enumerate(dna_sequence[occur_location + 1:])", invariant=walk_inv("dna_sequence[occur_location + 1:]"))},
+    )
+
+
+CONTRACTS = CONTRACTS + [
+    dict(name="dsw.graphized.path_matching", abstract=True, dispatch={"param": "has_indel", "true": "dsw.graphized.path_matching#indel", "false": "dsw.graphized.path_matching#subst"}),
+    path_matching_variant(False), path_matching_variant(True),
 ]
